@@ -31,10 +31,17 @@ pub fn shape_edges(shape: i64) -> (Vec<u32>, Vec<(u32, u32)>) {
         8 => (vec![3, 1, 2], vec![(3, 1), (1, 3), (2, 2)]),
         9 => (vec![3, 1, 2], vec![(1, 1), (1, 3), (3, 1), (1, 3)]),
         10 => (vec![1, 2, 3], vec![(1, 2)]),
-        _ => (vec![2, 3, 1], vec![(2, 3), (3, 1), (1, 2), (2, 1), (1, 1)]),
+        11 => (vec![2, 3, 1], vec![(2, 3), (3, 1), (1, 2), (2, 1), (1, 1)]),
+        // larger degenerate graphs: size-dependent code paths (small-selection shortcuts, the rayon branch above 20 nodes)
+        12 => (vec![13, 10, 15, 11, 14, 12], vec![]),
+        13 => (vec![13, 10, 15, 11, 14, 12], vec![(12, 12), (12, 12), (14, 14)]),
+        14 => (vec![18, 10, 17, 11, 16, 12, 15, 13, 14], vec![(10, 11), (11, 12), (12, 10), (13, 14), (14, 15), (16, 16)]),
+        15 => ((20..42).rev().collect(), vec![]),
+        16 => ((20..42).collect(), vec![(20, 21), (30, 30)]),
+        _ => ((20..43).collect(), (20..42).map(|i| (i, i + 1)).collect()),
     }
 }
-pub const NUM_SHAPES: i64 = 12;
+pub const NUM_SHAPES: i64 = 18;
 
 pub fn case(kind: i64, shape: i64, wmode: i64, dedupe: u8) -> GraphCase {
     let specs = Specs { directed: kind & 1 != 0, multi: kind & 2 != 0, self_loops: kind & 4 != 0, dedupe, missing: 0, slfalse: 1 };
@@ -81,7 +88,9 @@ pub fn observe(t: &mut Toks) -> String {
     let g: G = match gc.build() { Ok(g) => g, Err(e) => return format!("i.build=E{}", err_code(&e.kind)) };
     let g = Arc::new(g);
     let u: Vec<u32> = g.get_all_node_names().into_iter().copied().collect();
-    let mut one = u.clone(); one.push(ABSENT);
+    // arguments: every node of a small graph; the first two and the last node of a larger one; always one absent name
+    let mut one: Vec<u32> = if u.len() > 4 { vec![u[0], u[1], u[u.len() - 1]] } else { u.clone() };
+    one.push(ABSENT);
     let pairs: Vec<(u32, u32)> = one.iter().flat_map(|x| one.iter().map(move |y| (*x, *y))).collect();
     let first: Vec<u32> = u.iter().take(1).copied().collect();
     let mut first_absent = first.clone(); first_absent.push(ABSENT);
